@@ -382,6 +382,8 @@ def main(prop: str, suites, level_rule: str, extra_trusted: list[str] | None = N
     for v in violations:
         print(v)
     if violations:
+        if infra_error:
+            print(f"(note: {infra_error.splitlines()[0]} — the verdict rests on the other suites)", file=sys.stderr)
         return 1
     print(f"OK property={prop} tier={a.tier} seed={seed} obligations={obligations} discharged={discharged} "
           f"evaluations={ev['coverage']['evaluations']} wall={wall:.1f}s")
